@@ -33,8 +33,9 @@ ASSUMPTIONS = ['a second long-lived handle opened before an operation is not req
 K_BAL_STALE = 'C08/operating-handle/balance-kept-when-account-emptied'
 K_KEYBAL_STALE = 'C08/operating-handle/keys-balance-stale-identity-map'
 K_RELOAD_P2SH_P2WSH = 'C08/reload/p2sh-p2wsh-multisig-scriptsig-recomputed'
+K_UTXOS_STRIP = 'C08/utxos/live-rows-stripped-of-orm-state'
 
-OPS = ['new_key', 'get_key', 'new_key_change', 'fund_update', 'fund_update', 'update', 'update_lag', 'utxo_add', 'update_list',
+OPS = ['send_refused_keep', 'new_key', 'get_key', 'new_key_change', 'fund_update', 'fund_update', 'update', 'update_lag', 'utxo_add', 'update_list',
        'send', 'send', 'send', 'send_nobroadcast', 'send_fail', 'sweep', 'import_raw', 'delete', 'mine', 'reopen', 'reopen']
 
 
@@ -54,6 +55,7 @@ class History:
         self.S = set()           # outpoints consumed by transactions the wallet has sent
         self.sent = {}           # txid -> raw bytes broadcast
         self.ops = []
+        self.kept = []           # objects a caller may legitimately keep (exceptions of refused requests)
         self.states = set()
         own = self.ctx.own_addresses()
         w = self.ctx.w
@@ -130,6 +132,16 @@ class History:
                     self.sync = True
             elif op in ('send', 'send_nobroadcast', 'send_fail', 'sweep'):
                 self.do_send(op)
+            elif op == 'send_refused_keep':
+                # a request refused *after* input selection (fee far above the limit); the caller keeps the exception object
+                bal = sum(self.E.values()) if self.sync else 0
+                if bal > 200000:
+                    addr, _ = wallet_env.external_address(rnd, network)
+                    try:
+                        w.send_to(addr, 20000, fee=bal // 2, min_confirms=0, broadcast=False, priv_keys=ctx.extra_priv or None)
+                    except Exception as e:
+                        self.kept.append(e)
+                        self.kept = self.kept[-2:]
             elif op == 'import_raw':
                 if self.sent:
                     txid = rnd.choice(sorted(self.sent))
@@ -156,7 +168,8 @@ class History:
             if op in ('send', 'send_nobroadcast', 'send_fail', 'sweep'):
                 pass   # refusals are legitimate (insufficient funds, dust, fee limits, failing provider)
             else:
-                self.viol(None, 'operation %s raised %s' % (op, txt), txt, 'completed operation')
+                key = K_UTXOS_STRIP if ('_sa_instance_state' in txt and self.kept) else None
+                self.viol(key, 'operation %s raised %s' % (op, txt), txt, 'completed operation')
         self.check_all()
 
     def do_send(self, op):
@@ -219,7 +232,8 @@ class History:
         except Exception as e:
             txt = '%s: %s' % (type(e).__name__, str(e)[:200])
             del e
-            self.viol(None, '%s handle: reading balance/utxos/keys raised %s' % (which, txt), txt, None)
+            self.viol(K_UTXOS_STRIP if ('_sa_instance_state' in txt and self.kept and which == 'operating') else None,
+                      '%s handle: reading balance/utxos/keys raised %s' % (which, txt), txt, None)
             return None
         su = sum(u['value'] for u in ut)
         lib_set = {(u['txid'], u['output_n']): u['value'] for u in ut}
